@@ -15,8 +15,8 @@ uint64_t g_index = 0;
 
 std::string plan_to_text(const Plan &p) {
     char b[200]; std::string s;
-    std::snprintf(b, sizeof b, "knobs seed=%llu pool_seed=%llu sched_seed=%llu mean_gap=%u max_preemptions=%u threads=%zu\n", (unsigned long long)p.seed, (unsigned long long)p.pool_seed,
-                  (unsigned long long)p.sched_seed, p.mean_gap, p.max_preemptions, p.programs.size()); s += b;
+    std::snprintf(b, sizeof b, "knobs seed=%llu pool_seed=%llu sched_seed=%llu mean_gap=%u max_preemptions=%u victim=%u victim_op=%u runner=%u offset=%u threads=%zu\n", (unsigned long long)p.seed,
+                  (unsigned long long)p.pool_seed, (unsigned long long)p.sched_seed, p.mean_gap, p.max_preemptions, p.victim, p.victim_op, p.runner, p.offset, p.programs.size()); s += b;
     for (size_t t = 0; t < p.programs.size(); t++)
         for (const BOp &o : p.programs[t]) { std::snprintf(b, sizeof b, "op thread=%zu kind=%s a=%u b=%u c=%u\n", t + 1, bop_name(o.kind), o.a, o.b, o.c); s += b; }
     for (const Switch &w : p.switches) { std::snprintf(b, sizeof b, "switch event=%llu thread=%u\n", (unsigned long long)w.event, w.thread); s += b; }
@@ -39,6 +39,7 @@ bool plan_from_text(const std::string &t, Plan &p, std::string &err) {
         if (!line.compare(0, 6, "knobs ")) {
             if (kv(l, "seed", v)) p.seed = (uint64_t)v; if (kv(l, "pool_seed", v)) p.pool_seed = (uint64_t)v; if (kv(l, "sched_seed", v)) p.sched_seed = (uint64_t)v;
             if (kv(l, "mean_gap", v)) p.mean_gap = (uint32_t)v; if (kv(l, "max_preemptions", v)) p.max_preemptions = (uint32_t)v; if (kv(l, "threads", v)) p.programs.resize((size_t)v);
+            if (kv(l, "victim", v)) p.victim = (uint32_t)v; if (kv(l, "victim_op", v)) p.victim_op = (uint32_t)v; if (kv(l, "runner", v)) p.runner = (uint32_t)v; if (kv(l, "offset", v)) p.offset = (uint32_t)v;
         } else if (!line.compare(0, 3, "op ")) {
             BOp o; size_t th = 1; if (kv(l, "thread", v)) th = (size_t)v;
             const char *k = std::strstr(l, " kind="); if (!k) { err = "op without kind"; return false; }
@@ -59,8 +60,8 @@ Plan gen_plan(uint64_t runseed) {
     Plan p; simrt::Rng r; r.seed(runseed);
     p.seed = runseed; p.pool_seed = 1 + r.below(6); p.sched_seed = r.next();
     unsigned n = 2 + r.below(3);
-    unsigned strategy = r.below(8);       // 0 serial, 1-2 rare, 3-4 medium, 5-7 frequent
-    p.mean_gap = strategy == 0 ? 0 : strategy <= 2 ? 2000 + r.below(6000) : strategy <= 4 ? 150 + r.below(900) : 3 + r.below(40);
+    unsigned strategy = r.below(10);      // 0 serial, 1-2 rare, 3-4 medium, 5-7 frequent, 8-9 window-targeted
+    p.mean_gap = strategy == 0 || strategy >= 8 ? 0 : strategy <= 2 ? 2000 + r.below(6000) : strategy <= 4 ? 150 + r.below(900) : 3 + r.below(40);
     p.max_preemptions = 1 + r.below(64);
     int nk = bop_count();
     bool focus = r.below(3) == 0; unsigned fk1 = r.below((uint32_t)nk), fk2 = r.below((uint32_t)nk);
@@ -73,6 +74,13 @@ Plan gen_plan(uint64_t runseed) {
             o.a = r.below(64); o.b = r.below(64); o.c = r.below(1 << 20);
             p.programs[t].push_back(o);
         }
+    }
+    if (strategy >= 8) {
+        // window-targeted: one thread is stopped at a seeded event inside one of its operations while another runs a whole operation
+        p.victim = 1 + r.below(n); do { p.runner = 1 + r.below(n); } while (p.runner == p.victim);
+        p.victim_op = r.below((uint32_t)p.programs[p.victim - 1].size());
+        p.offset = r.below(3) ? 1 + r.below(60) : 1 + r.below(3000);
+        if (r.below(2)) p.programs[p.runner - 1][0].kind = p.programs[p.victim - 1][p.victim_op].kind;      // same kind on both sides half of the time
     }
     return p;
 }
@@ -108,6 +116,7 @@ RunResult run_plan(const Plan &p, Totals *tot) {
     for (size_t t = 0; t < n; t++) { S.digests[t].assign(p.programs[t].size(), 0); nops += p.programs[t].size(); }
     SchedParams sp; sp.seed = p.sched_seed; sp.mean_gap = p.mean_gap; sp.max_preemptions = p.max_preemptions;
     if (!p.switches.empty()) { sp.mode = 1; sp.list = p.switches.data(); sp.nlist = p.switches.size(); }
+    else if (p.victim) { sp.victim = (int)p.victim; sp.victim_op = (int)p.victim_op; sp.runner = (int)p.runner; sp.offset = p.offset; }
     simrt::fatal_context("prop=C20 i=%llu runseed=%llu site=concurrent_phase", (unsigned long long)g_index, (unsigned long long)p.seed);
     rt_begin_run((int)n, sp);
     rt_run_threads(thread_body, &S);
@@ -152,7 +161,7 @@ RunResult run_plan(const Plan &p, Totals *tot) {
     if (tot) {
         tot->runs++; tot->events += rr.stats.events; tot->accesses += rr.stats.accesses; tot->preemptions += rr.stats.preemptions; tot->switches += rr.stats.switches;
         tot->ops += nops; tot->sync_ops += rr.stats.sync_ops;
-        tot->strategy[p.mean_gap == 0 ? 0 : p.mean_gap >= 2000 ? 1 : p.mean_gap >= 150 ? 2 : 3]++;
+        tot->strategy[p.victim ? 4 : p.mean_gap == 0 ? 0 : p.mean_gap >= 2000 ? 1 : p.mean_gap >= 150 ? 2 : 3]++;
     }
     return rr;
 }
@@ -182,9 +191,9 @@ static Outcome run_forked(const Plan &p, std::string *line_out = nullptr, Totals
     if (pid == 0) {
         close(fd[0]); dup2(fd[1], 1); close(fd[1]); alarm(30);
         Totals t; RunResult rr = run_plan(p, &t);
-        std::printf("T %llu %llu %llu %llu %llu %llu %llu %llu %llu %llu %llu\n", (unsigned long long)t.events, (unsigned long long)t.accesses, (unsigned long long)t.preemptions, (unsigned long long)t.switches,
+        std::printf("T %llu %llu %llu %llu %llu %llu %llu %llu %llu %llu %llu %llu\n", (unsigned long long)t.events, (unsigned long long)t.accesses, (unsigned long long)t.preemptions, (unsigned long long)t.switches,
                     (unsigned long long)t.ops, (unsigned long long)t.sync_ops, (unsigned long long)t.strategy[0], (unsigned long long)t.strategy[1], (unsigned long long)t.strategy[2], (unsigned long long)t.strategy[3],
-                    (unsigned long long)rr.sig);
+                    (unsigned long long)t.strategy[4], (unsigned long long)rr.sig);
         const uint8_t *m; int dim; rt_overlap_matrix(&m, &dim);
         std::printf("O"); for (int i = 0; i < dim * dim; i++) if (m[i]) std::printf(" %d", i); std::printf("\n");
         std::printf("W"); for (const Switch &w : rr.recorded) std::printf(" %llu:%u", (unsigned long long)w.event, w.thread); std::printf("\n");
@@ -221,9 +230,9 @@ static Outcome run_forked(const Plan &p, std::string *line_out = nullptr, Totals
     if (tot) {
         size_t tp = buf.find("T ");
         if (tp == 0) {
-            unsigned long long v[11] = {0}; std::sscanf(buf.c_str() + 2, "%llu %llu %llu %llu %llu %llu %llu %llu %llu %llu %llu", &v[0], &v[1], &v[2], &v[3], &v[4], &v[5], &v[6], &v[7], &v[8], &v[9], &v[10]);
+            unsigned long long v[12] = {0}; std::sscanf(buf.c_str() + 2, "%llu %llu %llu %llu %llu %llu %llu %llu %llu %llu %llu %llu", &v[0], &v[1], &v[2], &v[3], &v[4], &v[5], &v[6], &v[7], &v[8], &v[9], &v[10], &v[11]);
             tot->runs++; tot->events += v[0]; tot->accesses += v[1]; tot->preemptions += v[2]; tot->switches += v[3]; tot->ops += v[4]; tot->sync_ops += v[5];
-            for (int i = 0; i < 4; i++) tot->strategy[i] += v[6 + i];
+            for (int i = 0; i < 5; i++) tot->strategy[i] += v[6 + i];
         } else tot->runs++;
     }
     return out;
@@ -242,6 +251,7 @@ static Plan shrink(const Plan &orig, const Outcome &want, unsigned &tries) {
                 Plan c = best; c.programs[t].erase(c.programs[t].begin() + i); c.switches.clear(); if (still(c)) { best = c; progress = true; }
             }
         if (best.mean_gap) { Plan c = best; c.mean_gap = 0; c.switches.clear(); if (still(c)) { best = c; progress = true; } }
+        if (best.victim) { Plan c = best; c.victim = 0; c.switches.clear(); if (still(c)) { best = c; progress = true; } }
     }
     // make the schedule explicit and drop switches
     Outcome o = run_forked(best); ++tries;
@@ -297,7 +307,7 @@ int main(int argc, char **argv) {
             if (nontrivial) { ++nt; distinct.insert(ssig); }
             size_t op = raw.find("\nO");
             if (op != std::string::npos) { std::istringstream is(raw.substr(op + 2, raw.find('\n', op + 1) - op - 2)); int v; while (is >> v) overlap.insert(v); }
-            if (per_run) { unsigned long long sig = 0; if (!raw.compare(0, 2, "T ")) { const char *q = raw.c_str() + 2; for (int k = 0; k < 10; k++) { while (*q && *q != ' ') ++q; while (*q == ' ') ++q; } sig = std::strtoull(q, nullptr, 10); }
+            if (per_run) { unsigned long long sig = 0; if (!raw.compare(0, 2, "T ")) { const char *q = raw.c_str() + 2; for (int k = 0; k < 11; k++) { while (*q && *q != ' ') ++q; while (*q == ' ') ++q; } sig = std::strtoull(q, nullptr, 10); }
                 std::printf("R i=%llu sig=%016llx nt=%d\n", (unsigned long long)i, sig, nontrivial ? 1 : 0); }
             if (o.cls == "unsupported") { ++unsupported; std::printf("U i=%llu %s\n", (unsigned long long)i, one_line(o.msg).substr(0, 200).c_str()); }
             if (o.violated) { ++viols; std::printf("V i=%llu runseed=%llu class=%s step=0 site=%s msg=%s\n", (unsigned long long)i, (unsigned long long)rs, o.cls.c_str(), o.site.c_str(), o.msg.c_str()); }
@@ -306,10 +316,10 @@ int main(int argc, char **argv) {
         int nk = bop_count() + 1;
         std::printf("S {\"runs\": %llu, \"violations\": %llu, \"ops\": %llu, \"events\": %llu, \"steps\": %llu, \"accesses_checked\": %llu, \"nontrivial_runs\": %llu, \"distinct_nontrivial\": %zu, "
                     "\"faults\": {\"preemptions_injected\": %llu, \"context_switches\": %llu}, \"sync_operations_modelled\": %llu, \"unsupported_primitive_runs\": %llu, "
-                    "\"strategies\": {\"serial\": %llu, \"rare_preemption\": %llu, \"medium_preemption\": %llu, \"frequent_preemption\": %llu}, \"overlap_pairs\": [",
+                    "\"strategies\": {\"serial\": %llu, \"rare_preemption\": %llu, \"medium_preemption\": %llu, \"frequent_preemption\": %llu, \"window_targeted\": %llu}, \"overlap_pairs\": [",
                     (unsigned long long)tot.runs, (unsigned long long)viols, (unsigned long long)tot.ops, (unsigned long long)tot.events, (unsigned long long)tot.events, (unsigned long long)tot.accesses,
                     (unsigned long long)nt, distinct.size(), (unsigned long long)tot.preemptions, (unsigned long long)tot.switches, (unsigned long long)tot.sync_ops, (unsigned long long)unsupported,
-                    (unsigned long long)tot.strategy[0], (unsigned long long)tot.strategy[1], (unsigned long long)tot.strategy[2], (unsigned long long)tot.strategy[3]);
+                    (unsigned long long)tot.strategy[0], (unsigned long long)tot.strategy[1], (unsigned long long)tot.strategy[2], (unsigned long long)tot.strategy[3], (unsigned long long)tot.strategy[4]);
         bool first = true; for (int v : overlap) { std::printf("%s%d", first ? "" : ",", v); first = false; }
         std::printf("], \"overlap_dim\": %d, \"op_kinds\": %d}\n", (int)OV_DIM, nk);
         const char *sigfile = arg(argc, argv, "--sigs", nullptr);
